@@ -20,7 +20,9 @@ POOL = ["garbage line", "vim: set ft=changelog:", ";; Local variables:", "Local 
         "Old Changelog:", "Changes from version 1 to 2:", "foo (1.0)", " -- ", " --", " -- A B <a@b>  bad date",
         " -- A B <a@b> Thu, 12 Dec 2006 12:23:34 +0000", " -- A B <a@b>  Thu, 12 Dec 2006 12:23:34 +0000",
         "foo (1) unstable; urgency", "foo (1) unstable; urgency=low, urgency=high", "foo (1) unstable; =x",
-        "foo (1) unstable", "foo (2) unstable; urgency=low", "  * change", "", " ", "x", "Mon Jan 1 2001 A <a@b>", "1.0:"]
+        "foo (1) unstable", "foo (2) unstable; urgency=low", "  * change", "", " ", "x", "Mon Jan 1 2001 A <a@b>", "1.0:",
+        "  foo (3) unstable; urgency=low", "\tbar (1.0-1) stable; urgency=high", "  -- A B <a@b>  Thu, 12 Dec 2006 12:23:34 +0000",
+        "foo (2) unstable; urgency=low  ", " \t "]
 
 
 def _version_of(b):
